@@ -1339,3 +1339,10 @@ package rockredis
 //@   requires (start == nil || start.arr != table.arr) && (end == nil || end.arr != table.arr)
 //@   callassert encodeScanKey len(arg1) >= len(table) + 1 && (forall i int :: 0 <= i && i < len(table) ==> arg1[i] == table[i]) && ((arg1[len(table)] == 58 && ((len(arg1) == len(table) + 1 + len(start) && eqAt(arg1, len(table) + 1, start)) || (end != nil && len(arg1) == len(table) + 1 + len(end) && eqAt(arg1, len(table) + 1, end)))) || (arg1[len(table)] == 59 && end == nil && len(arg1) == len(table) + 1))
 //@   modifies *
+
+// AbortBatch empties the shared write batch (C11: nothing of a failed command stays buffered)
+//@ property C11
+//@ func (r *RockDB) AbortBatch()
+//@   requires r != nil && r.wb != nil
+//@   ensures ghost(wbputs, r.wb) == 0 && ghost(wbdels, r.wb) == 0 && ghost(wbver, r.wb) == old(ghost(wbver, r.wb)) + 1
+//@   modifies ghost(wbputs, r.wb), ghost(wbdels, r.wb), ghost(wbver, r.wb), r.isBatching
